@@ -17,9 +17,48 @@ import (
 // so that predicate j holds iff the j-th flag token of the input is 'y'. All alternatives
 // continue identically, hence which alternative the generated parser chose is visible only through
 // the reported node type A_i. Every flag string (= truth assignment) is parsed.
-func tmFor(k caseT, name string) string {
+// option sets rotated over the generated grammars (each accepted set is built under one of them)
+var layerBOptions = [][]string{
+	nil,
+	{"optimizeTables = true"},
+	{"recursiveLookaheads = true"},
+	{"cancellable = true"},
+	{"optimizeTables = true", "recursiveLookaheads = true"},
+	{"recursiveLookaheads = true", "cancellable = true"},
+	{"optimizeTables = true", "defaultReduce = true"},
+}
+
+func nested(opt int) bool {
+	for _, o := range layerBOptions[opt%len(layerBOptions)] {
+		if strings.HasPrefix(o, "recursiveLookaheads") {
+			return true
+		}
+	}
+	return false
+}
+
+// markers are the distinct terminals that end the alternatives (alternative i ends with markers[i]):
+// choosing a wrong alternative therefore ends in a syntax error, also when the decision is taken
+// inside another lookahead (nested variant, used with recursiveLookaheads):
+//
+//	Top : (?= In) S -> T0 | (?= !In) tw -> T1 ;   In : S ;
+var markers = []string{"p", "q", "r", "s"}
+
+func tmFor(k caseT, name string, opt int) string {
 	var sb strings.Builder
-	fmt.Fprintf(&sb, "language %s(go);\n\npackage = \"scratch/%s\"\neventBased = true\n\n:: lexer\n\nty: /y/\ntn: /n/\ntz: /z/\n\n:: parser\n\n%%input S;\n\nS :\n", name, name)
+	fmt.Fprintf(&sb, "language %s(go);\n\npackage = \"scratch/%s\"\neventBased = true\n%s\n\n:: lexer\n\nty: /y/\ntn: /n/\ntu: /u/\ntv: /v/\ntw: /w/\n", name, name, strings.Join(layerBOptions[opt%len(layerBOptions)], "\n"))
+	for i := range k.Alts {
+		fmt.Fprintf(&sb, "t%s: /%s/\n", markers[i], markers[i])
+	}
+	start := "S"
+	if nested(opt) {
+		start = "Top"
+	}
+	fmt.Fprintf(&sb, "\n:: parser\n\n%%input %s;\n\n", start)
+	if nested(opt) {
+		sb.WriteString("Top : (?= In) S -> T0 | (?= !In) tw -> T1 ;\n\nIn : S ;\n\n")
+	}
+	sb.WriteString("S :\n")
 	flags := strings.TrimSpace(strings.Repeat("F ", k.M))
 	for i, a := range k.Alts {
 		var ps []string
@@ -34,13 +73,31 @@ func tmFor(k caseT, name string) string {
 		if i > 0 {
 			sep = "  | "
 		}
-		fmt.Fprintf(&sb, "%s(?= %s) %s tz -> A%d\n", sep, strings.Join(ps, " & "), flags, i)
+		fmt.Fprintf(&sb, "%s(?= %s) %s t%s -> A%d\n", sep, strings.Join(ps, " & "), flags, markers[i], i)
 	}
 	sb.WriteString(";\n\nF : ty | tn ;\n\n")
 	for j := 0; j < k.M; j++ {
-		fmt.Fprintf(&sb, "P%d : %sty ;\n", j, strings.Repeat("F ", j))
+		// The extra alternatives never match an input over {y,n}; they only make the first state of
+		// the predicate's sub-parser a wide table row (the longest rows are packed first, at slot 0).
+		pre := strings.Repeat("F ", j)
+		fmt.Fprintf(&sb, "P%d : %sty | %stu | %stv tv | %stw ;\n", j, pre, pre, pre, pre)
 	}
 	return sb.String()
+}
+
+// uniqueAlt returns the index of the only alternative satisfied by assign, or -1.
+func uniqueAlt(k caseT, assign int) int {
+	want, cnt := -1, 0
+	for i, a := range k.Alts {
+		if a.holds(assign) {
+			cnt++
+			want = i
+		}
+	}
+	if cnt != 1 {
+		return -1
+	}
+	return want
 }
 
 func layerB(c *core.Ctx, accepted []caseT, maxGrammars int) {
@@ -52,16 +109,31 @@ func layerB(c *core.Ctx, accepted []caseT, maxGrammars int) {
 		c.Capped(fmt.Sprintf("Layer B: %d of %d accepted sets generated and built (deterministic stride over the enumeration; Layer A covers all)", maxGrammars, len(accepted)))
 		accepted = sel
 	}
+	// the simplest accepted sets are built under EVERY option set, the others under one rotating set
+	type job struct {
+		k   caseT
+		opt int
+	}
+	var jobs []job
+	for i, k := range accepted {
+		if i < 12 {
+			for o := range layerBOptions {
+				jobs = append(jobs, job{k, o})
+			}
+		} else {
+			jobs = append(jobs, job{k, i})
+		}
+	}
 	const batch = 100
-	for start := 0; start < len(accepted); start += batch {
+	for start := 0; start < len(jobs); start += batch {
 		if c.Expired() {
 			c.Capped(fmt.Sprintf("Layer B stopped after %d grammars (budget)", start))
 			return
 		}
-		end := min(start+batch, len(accepted))
+		end := min(start+batch, len(jobs))
 		var specs []genharness.Spec
 		for i := start; i < end; i++ {
-			k := accepted[i]
+			k := jobs[i].k
 			name := fmt.Sprintf("g%04d", i)
 			var cases []genharness.Case
 			for assign := 0; assign < 1<<uint(k.M); assign++ {
@@ -73,10 +145,10 @@ func layerB(c *core.Ctx, accepted []caseT, maxGrammars int) {
 						text.WriteByte('n')
 					}
 				}
-				text.WriteByte('z')
+				text.WriteString(markers[max(uniqueAlt(k, assign), 0)])
 				cases = append(cases, genharness.Case{Text: text.String(), Mode: "parse"})
 			}
-			specs = append(specs, genharness.Spec{Name: name, TM: tmFor(k, name), Cases: cases})
+			specs = append(specs, genharness.Spec{Name: name, TM: tmFor(k, name, jobs[i].opt), Cases: cases})
 		}
 		outs, err := genharness.RunBatch(specs, genharness.BatchOpts{})
 		if err != nil {
@@ -84,7 +156,7 @@ func layerB(c *core.Ctx, accepted []caseT, maxGrammars int) {
 			return
 		}
 		for bi, out := range outs {
-			k := accepted[start+bi]
+			k := jobs[start+bi].k
 			rc := map[string]any{"tm": specs[bi].TM, "case": k}
 			switch {
 			case out.GenPanic != "":
@@ -111,23 +183,17 @@ func layerB(c *core.Ctx, accepted []caseT, maxGrammars int) {
 					c.Violate("layerB:parser-crash-or-hang", fmt.Sprintf("%+v on %s", res, specs[bi].Cases[assign].Text), rc)
 					continue
 				}
-				want, cnt := -1, 0
-				for i, a := range k.Alts {
-					if a.holds(assign) {
-						cnt++
-						want = i
-					}
+				want := uniqueAlt(k, assign)
+				if want < 0 {
+					continue // no or several alternatives hold: nothing is promised
 				}
 				if !res.Accept {
-					c.Violate("layerB:rejects", fmt.Sprintf("input %q rejected at %d although every alternative continues identically :: %s", specs[bi].Cases[assign].Text, res.ErrOff, k.String()), rc)
-					continue
-				}
-				if cnt != 1 {
+					c.Violate("layerB:rejects", fmt.Sprintf("input %q (only alternative %d holds and the input ends with its marker) rejected at %d :: %s", specs[bi].Cases[assign].Text, want, res.ErrOff, k.String()), rc)
 					continue
 				}
 				got := ""
 				for _, e := range res.Events {
-					if strings.HasPrefix(e.Type, "A") {
+					if strings.HasPrefix(e.Type, "A") && got == "" {
 						got = e.Type
 					}
 				}
